@@ -1,7 +1,7 @@
 (* C13 — property theorems only. Each is closed by [exact] of a lemma from Proofs*.v;
    Print Assumptions is run on every Theorem by bin/check. *)
 From Coq Require Import List NArith ZArith Bool Lia.
-From V Require Import C12.Model C13.Model C13.Proofs C13.Proofs_Votes C13.Proofs_Replay.
+From V Require Import C12.Model C13.Model C13.Proofs C13.Proofs_Votes C13.Proofs_Replay C13.Proofs_Commit C13.Proofs_Resume.
 Import ListNotations.
 Open Scope N_scope.
 
@@ -96,11 +96,31 @@ Theorem C13_replay_reruns_state_machine : forall E h D n,
 Proof. intros. unfold recover. rewrite replay_sm. reflexivity. Qed.
 
 (* ---------- resume height ---------- *)
-(* FULL STATEMENT (not proved): the commit callbacks of the restarted life are for consecutive heights
-   starting at resume_height (the predicate the harness evaluates: consecutive_from).
-   PROVED: replay skips every entry below the boot height by construction, and under the replay discipline the
-   recovered state machine is never below the boot height (= the height after the last completed commit). *)
-Theorem C13_resume_height_partial : forall E h D n,
+(* a Commit action is always the last action the state machine returns for one call, so execute (which
+   returns at the Commit) never drops an action; proved over C12.Model.step *)
+Theorem C13_commit_is_last_action : forall c s i, col (snd (step c s i)) = true.
+Proof. exact step_col. Qed.
+
+(* in every disciplined life the commit callbacks are for consecutive heights starting at the boot height,
+   and the state machine ends at boot height + their number *)
+Theorem C13_resume_height : forall E h D n ins, life_disc E h D n ins = true ->
+  consecutive_from h (commits_in (flat (snd (lifetime E h D n ins)))) = true /\
+  s_h (d_sm (fst (lifetime E h D n ins))) = h + N.of_nat (length (commits_in (flat (snd (lifetime E h D n ins))))).
+Proof. exact resume_height_lemma. Qed.
+
+(* across a kill at ANY effect boundary k: the process restarted at resume_height (the height after the last
+   completed callback) continues the consecutive run of callbacks: no height is committed twice or skipped,
+   and it ends at h0 + (callbacks before the kill) + (callbacks after) *)
+Theorem C13_resume_height_across_crash : forall E h0 ins1 k n2 ins2,
+  life_disc E h0 [] 0 ins1 = true ->
+  (let '(pre, post) := crash_restart E h0 ins1 k n2 ins2 in
+   life_disc E (resume_height h0 pre) (crash_at k (flat (snd (lifetime E h0 [] 0 ins1))) []) n2 ins2 = true ->
+   consecutive_from h0 (commits_in pre ++ commits_in (flat (snd post))) = true /\
+   s_h (d_sm (fst post)) = h0 + N.of_nat (length (commits_in pre ++ commits_in (flat (snd post))))).
+Proof. exact resume_across_crash. Qed.
+
+(* the recovered state machine is never below the boot height *)
+Theorem C13_recovered_height_lower_bound : forall E h D n,
   replay_disc E (boot h D n) (load D) = true -> h <= s_h (d_sm (fst (recover E h D n))).
 Proof. exact recover_height. Qed.
 
